@@ -241,7 +241,8 @@ def run(res, tier, seed, shard, nshards):
                     one(res, W, st, call, cuts, tplan, None, ("long", "rand"))
                 one(res, W, st, call, None, None, sorted({rng.randrange(1, 129 + n) for _ in range(rng.choice([1, 3, 10]))}), ("long", "headcut-rand"))
 
-    H.in_sim(scen, watchdog=3000)
+    with H.ambient((seed, shard, "C03"), res):
+        H.in_sim(scen, watchdog=3000)
     if shard == 0:
         real_tls_coalescing(res, W)
 
